@@ -891,10 +891,13 @@ impl StreamsState {
         let receive_window = receive_window.into();
         let mut expanded = false;
         if receive_window > self.receive_window {
-            self.local_max_data = self
-                .local_max_data
-                .saturating_add(receive_window - self.receive_window);
-            expanded = true;
+            // An earlier shrink leaves `local_max_data` ahead of the window by the shrink debt,
+            // so the expansion pays off that debt first and only the remainder is new credit
+            let diff: u64 = receive_window - self.receive_window;
+            let net_diff = diff.saturating_sub(self.receive_window_shrink_debt);
+            self.receive_window_shrink_debt = self.receive_window_shrink_debt.saturating_sub(diff);
+            self.local_max_data = self.local_max_data.saturating_add(net_diff);
+            expanded = net_diff > 0;
         } else {
             let diff = self.receive_window - receive_window;
             self.receive_window_shrink_debt = self.receive_window_shrink_debt.saturating_add(diff);
